@@ -458,7 +458,7 @@ func rC14Branches(w *World, r *Report) {
 			}
 		}
 		// classify the branch
-		errGate, skipGate := false, false
+		errGate, skipGate, notSkip := false, false, false
 		for _, f := range factsAt(g.Block()) {
 			if f.Y == nil {
 				continue
@@ -470,11 +470,15 @@ func rC14Branches(w *World, r *Report) {
 			if _, ok := loadOfFieldNamed(f.X, "status"); ok && f.Op == token.EQL && k == st["runSkip"] {
 				skipGate = true
 			}
+			if _, ok := loadOfFieldNamed(f.X, "status"); ok && f.Op == token.NEQ && k == st["runSkip"] {
+				notSkip = true
+			}
 		}
 		switch {
 		case skipGate:
 			ru.Check(errVal != nil && isNilConst(errVal), "branch/skip", w.IPos(g), "skipped through ErrorSkipParents: completes with nil (not reported)", "a task skipped through ErrorSkipParents is reported as an error")
 		case errGate:
+			ru.Check(notSkip, "branch/gated-not-skip", w.IPos(g), "the error gate is consulted only for vertices that were not skipped through ErrorSkipParents", "a vertex skipped through ErrorSkipParents can take the error-gate branch and be reported as ErrorTaskSkipped (it must complete silently)")
 			ru.Check(errVal != nil && isLoadOfGlobal(errVal, "dag.ErrorTaskSkipped"), "branch/gated", w.IPos(g), "not started after a failure: reported with ErrorTaskSkipped", "a task that was never started after a failure is not reported as ErrorTaskSkipped")
 		default:
 			ru.Bad("branch/unknown", w.IPos(g), "a goroutine is launched on a branch that is neither the skip nor the error-gate branch")
@@ -1000,11 +1004,35 @@ func rC16AllDone(w *World, r *Report) {
 			}
 		}
 	})
+	var counter *ssa.Phi
+	counterOf := func(x, y ssa.Value) *ssa.Phi {
+		for _, pair := range [][2]ssa.Value{{x, y}, {y, x}} {
+			if phi, ok := pair[0].(*ssa.Phi); ok {
+				if c, ok := pair[1].(*ssa.Call); ok && calleeName(c) == "builtin:len" {
+					if _, ok := loadOfFieldNamed(c.Call.Args[0], "Vertices"); ok {
+						return phi
+					}
+				}
+			}
+		}
+		return nil
+	}
+	if doneRet == nil {
+		// expression form: return nil, counter == len(g.Vertices), false
+		eachInstr(fn, func(in ssa.Instruction) {
+			if ret, ok := in.(*ssa.Return); ok && len(ret.Results) == 3 {
+				if bo, ok := ret.Results[1].(*ssa.BinOp); ok && bo.Op == token.EQL {
+					if phi := counterOf(bo.X, bo.Y); phi != nil {
+						doneRet, counter = ret, phi
+					}
+				}
+			}
+		})
+	}
 	if doneRet == nil {
 		ru.Bad("all-done/return", w.Pos(fn.Pos()), "completion is never signalled")
 		return
 	}
-	var counter *ssa.Phi
 	for _, f := range factsAt(doneRet.Block()) {
 		if f.Op == token.EQL && f.Y != nil {
 			for _, pair := range [][2]ssa.Value{{f.X, f.Y}, {f.Y, f.X}} {
@@ -1113,7 +1141,7 @@ func rC16Launch(w *World, r *Report) {
 						if ex, ok := a.(*ssa.Extract); ok && ex.Tuple == ssa.Value(call) && ex.Index == 0 {
 							hasV = true
 						}
-						if strings.HasSuffix(typeString(a.Type()), "IDErr") {
+						if isCompletionChan(a.Type()) {
 							hasDone = true
 						}
 					}
@@ -1210,11 +1238,46 @@ func rC16Edges(w *World, r *Report) {
 
 func rC16DFS(w *World, r *Report) {
 	ru := r.Rule("R16.7", "depth-first sort shape: visit returns nil for a traversed vertex, an error wrapping ErrorGraphHasCycle for one on the current path, marks visited before descending into every child (propagating errors), marks traversed and appends the vertex afterwards; DepthFirstSort starts a visit from every unvisited vertex and returns the first error", 7)
-	v := w.Fn("dag.visit")
 	d := w.Fn("(*dag.Graph).DepthFirstSort")
+	// visit, by role: the recursive function DepthFirstSort calls with a vertex, returning an error (whatever its
+	// name, and whether its bookkeeping travels as parameters or in a receiver)
+	var v *ssa.Function
+	vIdx := -1
+	if d != nil {
+		for _, c := range allCalls(d) {
+			f := c.Common().StaticCallee()
+			if f == nil || f.Blocks == nil || f.Pkg != d.Pkg || f.Signature.Results().Len() != 1 || typeString(f.Signature.Results().At(0).Type()) != "error" {
+				continue
+			}
+			idx := -1
+			for i, p := range f.Params {
+				if typeString(p.Type()) == "*dag.Vertex" {
+					idx = i
+				}
+			}
+			rec := false
+			for _, c2 := range allCalls(f) {
+				if c2.Common().StaticCallee() == f {
+					rec = true
+				}
+			}
+			if idx >= 0 && rec {
+				v, vIdx = f, idx
+			}
+		}
+	}
 	if v == nil || d == nil {
 		ru.Undecided("anchor", "-", "visit / DepthFirstSort not found")
 		return
+	}
+	selfCalls := func(fn *ssa.Function) []ssa.CallInstruction {
+		var out []ssa.CallInstruction
+		for _, c := range allCalls(fn) {
+			if c.Common().StaticCallee() == v {
+				out = append(out, c)
+			}
+		}
+		return out
 	}
 	vs := enumConsts(w, "dag", "visitStatus")
 	ig := buildIG(v)
@@ -1316,7 +1379,7 @@ func rC16DFS(w *World, r *Report) {
 			return false
 		}
 		els, _, _ := elementsOf(c.Call.Args[1], map[ssa.Value]bool{})
-		return len(els) == 1 && els[0] == ssa.Value(v.Params[2])
+		return len(els) == 1 && els[0] == ssa.Value(v.Params[vIdx])
 	}
 	isNilRet := func(in ssa.Instruction) bool {
 		ret, ok := in.(*ssa.Return)
@@ -1343,8 +1406,8 @@ func rC16DFS(w *World, r *Report) {
 	// recursion on every child with error propagation
 	elem := rangeElem(loopHdr)
 	var rec *ssa.Call
-	for _, c := range callsTo(v, "dag.visit") {
-		if cc, ok := c.(*ssa.Call); ok && cc.Call.Args[2] == elem {
+	for _, c := range selfCalls(v) {
+		if cc, ok := c.(*ssa.Call); ok && vIdx < len(cc.Call.Args) && cc.Call.Args[vIdx] == elem {
 			rec = cc
 		}
 	}
@@ -1362,8 +1425,10 @@ func rC16DFS(w *World, r *Report) {
 	}
 	// DepthFirstSort
 	var calls []*ssa.Call
-	for _, c := range callsTo(d, "dag.visit") {
-		calls = append(calls, c.(*ssa.Call))
+	for _, c := range selfCalls(d) {
+		if cc, ok := c.(*ssa.Call); ok {
+			calls = append(calls, cc)
+		}
 	}
 	if len(calls) != 1 {
 		ru.Bad("DepthFirstSort/visit", w.Pos(d.Pos()), "DepthFirstSort does not call visit exactly once per vertex")
